@@ -12,19 +12,22 @@ import traceback
 from hypothesis import HealthCheck, Phase, given, seed, settings
 from hypothesis import strategies as st
 
-from vf import cst, minimise, nima, oracles
+from vf import cst, guard, minimise, nima, oracles
+
+EVAL_TIMEOUT_S = 10
 from vf.gen import grammar as G
 from vf.gen import trivia as T
 
 
 class Config:
-    def __init__(self, pid, classes, check, weights=None, include_uri=False, allow_string_interp=True, nontrivial=None):
+    def __init__(self, pid, classes, check, weights=None, include_uri=False, allow_string_interp=True, nontrivial=None, allow_attrpath=True):
         self.pid = pid
         self.classes = classes
         self.check = check  # check(in_text, in_tree) -> ("ok"|"refused"|"skip:<why>", fails)
         self.weights = weights
         self.include_uri = include_uri
         self.allow_string_interp = allow_string_interp
+        self.allow_attrpath = allow_attrpath
         self.nontrivial = nontrivial
 
 
@@ -42,7 +45,10 @@ def rebuild(text):
         return "refused", "env-limit: >=250 lines or columns (py-tree-sitter Point bug)"
     nima.reset_state()
     try:
-        return "ok", nima.rt(text)
+        with guard.time_limit(EVAL_TIMEOUT_S):
+            return "ok", nima.rt(text)
+    except guard.EvalTimeout:
+        return "refused", "timeout: evaluation exceeded %ss (judged by C20 only)" % EVAL_TIMEOUT_S
     except ValueError as e:
         return "refused", f"{type(e).__name__}: {str(e)[:80]}"
     except RecursionError as e:
@@ -81,7 +87,7 @@ def _ast_shape(ast) -> str:
 
 def run_shard(sh, cfg: Config):
     examples = int(sh.params["examples"] * sh.params.get("scale", 1.0))
-    injector = T.Injector(cfg.classes, blocked=make_blocked(sh.quarantine), allow_string_interp=cfg.allow_string_interp, weights=cfg.weights)
+    injector = T.Injector(cfg.classes, blocked=make_blocked(sh.quarantine), allow_string_interp=cfg.allow_string_interp, weights=cfg.weights, allow_attrpath=cfg.allow_attrpath)
 
     def kinds_of(fails):
         return {k for k, _ in fails}
